@@ -509,6 +509,7 @@ impl Parser<'_> {
             let s = self.next_ident().unwrap();
             if self.eat(&Token::LParen) {
                 let op = match s.as_str() {
+                    "SGN" => UnOpKind::Sgn,
                     "NEG" => UnOpKind::Neg,
                     "SIN" => UnOpKind::Sin,
                     "COS" => UnOpKind::Cos,
